@@ -54,7 +54,7 @@ claim("C14", "S (symfield)", "real KZG multi_prepare executed on a symbolic pair
       "Trusted: symbolic pairing model, specification prover written from the halo2 book. Outside: q-SDH/AGM soundness, multi_open's MSM.", "DESIGN 3 C14")
 claim("C15", "S (symfield) + K (Kani)", "real DualMSM/MSMKZG fold executed on the symbolic pairing engine; linearity decided by SMT",
       "Narrow: the batching fold is the documented linear combination (scale/add linear, every member included).",
-      "Plus (part C15_K, Kani): batch_verify / Guard::batch_verify answer empty and length-mismatched batches with a value for all lengths 0..2 (proof-system calls behind them as nondeterministic oracles). Outside: probabilistic soundness of random linear combination, the accumulator of the aggregator crate.", "DESIGN 3 C15")
+      "Plus (part C15_K, Kani): batch_verify / Guard::batch_verify answer empty and length-mismatched batches with a value for all lengths 0..2; the whole real batch_verify for n = 1..3 (thorough 4) with prepare / transcript / scale / add_msm / check as weight-tracking stand-ins: every member gets a distinct power of the one challenge, each guard is folded exactly once, the challenge is squeezed after all member summaries are absorbed, one failing prepare fails the batch. Outside: probabilistic soundness of random linear combination, the accumulator of the aggregator crate.", "DESIGN 3 C15")
 claim("C18", "C (csmt) + K (Kani)", "SMT over the constraint system of the compiled one-operation ZKIR program; the real off-circuit evaluator produces the instance of the honest run",
       "Partial: per operation on Native/Bool/Bytes operands, the compiled circuit accepts exactly the published values the documented semantics prescribes (all assignments); the off-circuit evaluator agrees at the concrete inputs run.",
       "Also BigUint operands (add/sub/mul/is_equal/inner_product/into_bytes/from_bytes/mod_exp e <= 3; part C18_B) and totality of into_bytes on both sides for all n (Kani, part C18_K). Outside: Jubjub/hash operations, multi-instruction programs, codecs.", "DESIGN 3 C18")
